@@ -4,6 +4,7 @@ import ComposeVerif.Lemmas.PathsTree
 import ComposeVerif.Gen.Tables
 import ComposeVerif.Gen.PathsConsts
 import ComposeVerif.Neg.C12
+import ComposeVerif.Lemmas.AuditCmd
 /-!
 # C12 — relative paths resolve against the right directory, everything else is untouched
 
